@@ -37,20 +37,42 @@ theorem isoparse_sound (cfg : Option Nat) (s : Bytes) (v : Result) (h : isoparse
 theorem isoparse_entry_sound (sep : Option (List Nat)) (isStr : Bool) (s : Bytes) (v : Result)
     (h : isoparseFull sep isStr s = .ok v) :
     ∃ f x, IsoSpec.WFields f x ∧ s = IsoSpec.render f x ∧ v = IsoSpec.denote f x ∧
+      (f.time ≠ .none → (sep = none ∨ sep = some [f.sep])) ∧
       (isStr = true → ∀ b ∈ s, b < 128) := by
   unfold isoparseFull at h
   cases hs : mkSep sep with
   | error e => simp [hs, bind, Except.bind] at h
   | ok sp =>
     simp only [hs, bind, Except.bind, asciiGate] at h
+    have hsp : sp = none → sep = none := by
+      intro e; subst e
+      unfold mkSep at hs
+      split at hs
+      · rfl
+      · split at hs <;> cases hs
+      · cases hs
+    have hsp' : ∀ c, sp = some c → sep = some [c] := by
+      intro c e; subst e
+      unfold mkSep at hs
+      split at hs
+      · cases hs
+      · rename_i c'
+        split at hs
+        · cases hs
+        · cases hs; rfl
+      · cases hs
     split at h
     · cases h
     · rename_i hg
-      obtain ⟨f, x, hW, _, er, ev⟩ := isoparse_sound_core sp s v h
-      refine ⟨f, x, hW, er, ev, fun hstr b hb => ?_⟩
-      by_cases hlt : b < 128
-      · exact hlt
-      · exact absurd ⟨hstr, List.any_eq_true.mpr ⟨b, hb, by simpa using hlt⟩⟩ hg
+      obtain ⟨f, x, hW, hcf, er, ev⟩ := isoparse_sound_core sp s v h
+      refine ⟨f, x, hW, er, ev, ?_, fun hstr b hb => ?_⟩
+      · intro ht
+        rcases hcf ht with h0 | h0
+        · exact Or.inl (hsp h0)
+        · exact Or.inr (hsp' _ h0)
+      · by_cases hlt : b < 128
+        · exact hlt
+        · exact absurd ⟨hstr, List.any_eq_true.mpr ⟨b, hb, by simpa using hlt⟩⟩ hg
 
 /-- with a configured separator the accepted strings are EXACTLY the renderings of well-formed
     fields with that separator (C20 soundness + C07 inverse law) -/
